@@ -127,6 +127,8 @@ class Interp:
         self.cur_dest_ty = None
         self.cur_state = None
         self.summaries = None
+        self.tbl_info = {}
+        self.tbl_inv_cache = {}
         self.bitcanon = False     # summarised callees take their arguments in bit-level canonical form (bitform.py)
         self.fork_log = None
         import models
@@ -856,7 +858,13 @@ class Interp:
                         h = drop_term(h)
                         v.hull = h
                     if isinstance(h, AInt):
-                        return h.with_term(T.op('sel:' + v.name, h.w, idx.term))
+                        name = 'sel:' + v.name
+                        if h.w == 8 and len(v.e) == 256 and name not in self.tbl_info and all(isinstance(x, AInt) and x.const is not None for x in v.e):
+                            self.tbl_info[name] = bytes(x.const for x in v.e)
+                        inv = self.table_inverse(name, h.w, idx.term)
+                        if inv is not None:
+                            return h.with_term(inv)
+                        return h.with_term(T.op(name, h.w, idx.term))
                 if full and v.hull is not None:
                     return v.hull
                 r = v.e[lo]
@@ -903,12 +911,50 @@ class Interp:
                 hc[key] = drop_term(r)
             r = hc[key]
             if T.ENABLED and idx.term is not None and isinstance(r, AInt):
-                return r.with_term(T.op('tbl:%s+%d/%d' % (self.alloc_name(aid), loc.boff, es), r.w, idx.term))
+                name = 'tbl:%s+%d/%d' % (self.alloc_name(aid), loc.boff, es)
+                self.tbl_info[name] = (aid, loc.boff, es)
+                inv = self.table_inverse(name, r.w, idx.term)
+                if inv is not None:
+                    return r.with_term(inv)
+                return r.with_term(T.op(name, r.w, idx.term))
             return r
         v = self.decode(aid, loc.boff or 0, loc.ty) if loc.win is None else self.decode_slice(aid, loc)
         for step in loc.path:
             v = self.step_read(v, step, loc)
         return v
+
+    def table_inverse(self, name, w, idx_term):
+        """A[B[x]] = x for two constant byte tables that are mutually inverse permutations (read off the constants, as
+        const evaluation would): the lookup of a zero-extended B-lookup in A is the index byte of the B-lookup"""
+        if w != 8 or idx_term[0] != 'cat':
+            return None
+        parts = idx_term[2]
+        if not parts or parts[0][1] != 0 or parts[0][2] != 8 or any(not (p[0][0] == 'c' and p[0][2] == 0) for p in parts[1:]):
+            return None
+        inner = parts[0][0]
+        if not inner[0].startswith(('tbl:', 'sel:')) or inner[1] != 8 or inner[0] not in self.tbl_info or name not in self.tbl_info:
+            return None
+        y = inner[2]
+        if y[0] != 'cat' or not y[2] or y[2][0][2] != 8 or any(not (p[0][0] == 'c' and p[0][2] == 0) for p in y[2][1:]):
+            return None
+        key = (name, inner[0])
+        ok = self.tbl_inv_cache.get(key)
+        if ok is None:
+            def table(info):
+                if isinstance(info, bytes):
+                    return info if len(info) == 256 else None
+                (a_, o_, e_) = info
+                if e_ != 1:
+                    return None
+                raw_, _ = self.alloc_bytes(a_)
+                return raw_[o_:o_ + 256] if len(raw_) - o_ >= 256 else None
+            ta, tb = table(self.tbl_info[name]), table(self.tbl_info[inner[0]])
+            ok = ta is not None and tb is not None and all(ta[tb[v]] == v for v in range(256))
+            self.tbl_inv_cache[key] = ok
+        if not ok:
+            return None
+        atom, lo, _ln = y[2][0]
+        return T.slice_(atom, lo, 8)
 
     def decode_slice(self, aid, loc):
         d = self.types[loc.ty]
